@@ -5,6 +5,7 @@ import (
 	"fmt"
 	"os"
 	"path/filepath"
+	"sort"
 )
 
 var propMeta = map[string]struct {
@@ -53,6 +54,18 @@ func writeEvidence(prop, tier string, seed uint64, stats map[string]any, viols [
 		if _, ok := cov[k]; !ok {
 			cov[k] = v
 		}
+	}
+	if ms, ok := stats["map_sites"].(map[string]any); ok {
+		var blind []string
+		for name, v := range ms {
+			if m, ok := v.(map[string]any); ok {
+				if f, _ := m["visits_ge2_keys"].(float64); f == 0 {
+					blind = append(blind, name)
+				}
+			}
+		}
+		sort.Strings(blind)
+		cov["map_sites_never_visited_with_2_or_more_keys"] = blind
 	}
 	if sb, err := os.ReadFile(s.sites); err == nil {
 		var t struct {
